@@ -358,12 +358,13 @@ def plain_config(p, save_dir, chunks_dir, slp, key):
             "trainer_devices": 1,
             "trainer_accelerator": "cpu",
             "enable_progress_bar": False,
-            "steps_per_epoch": 1,
+            "profiler": p.get("profiler"),
+            "steps_per_epoch": None if p.get("steps_none") else 1,  # None: derived from the dataset length (2-3 tiny frames)
             "max_epochs": p.get("epochs", 1),
-            "seed": 1000,
+            "seed": None if p.get("seed_none") else 1000,
             "use_wandb": p["use_wandb"],
             "save_ckpt": p["save_ckpt"],
-            "save_ckpt_path": save_dir,
+            "save_ckpt_path": None if p.get("ckpt_path_none") else save_dir,  # None: the documented default "./"
             "resume_ckpt_path": resume_ckpt(p, save_dir),
             "wandb": {"entity": None, "project": "simproj", "name": "simrun", "wandb_mode": p.get("wandb_mode"),
                       "api_key": key, "prv_runid": resume_runid(p), "group": None},
@@ -432,9 +433,9 @@ def build_config(p, save_dir, chunks_dir, slp, key):
     tc = d["trainer_config"]
     trainer_config = T.get_trainer_config(
         batch_size=1, shuffle_train=True, num_workers=0, ckpt_save_top_k=1, ckpt_save_last=p["save_last"],
-        trainer_num_devices=1, trainer_accelerator="cpu", enable_progress_bar=False, steps_per_epoch=1,
-        max_epochs=tc["max_epochs"], seed=1000, use_wandb=p["use_wandb"], save_ckpt=p["save_ckpt"],
-        save_ckpt_path=save_dir, wandb_project="simproj", wandb_name="simrun", wandb_api_key=key,
+        trainer_num_devices=1, trainer_accelerator="cpu", enable_progress_bar=False, steps_per_epoch=tc["steps_per_epoch"],
+        max_epochs=tc["max_epochs"], seed=tc["seed"], use_wandb=p["use_wandb"], save_ckpt=p["save_ckpt"],
+        save_ckpt_path=tc["save_ckpt_path"], wandb_project="simproj", wandb_name="simrun", wandb_api_key=key,
         wandb_mode=p.get("wandb_mode"), learning_rate=1e-4, optimizer=p.get("optimizer", "Adam"),
         resume_ckpt_path=resume_ckpt(p, save_dir), wandb_resume_prv_runid=resume_runid(p),
         lr_scheduler={"plateau": {"reduce_lr_on_plateau": dict(PLATEAU)}, "step": "step_lr", "both_null": None, "null": None}[p.get("lr_sched", "plateau")],
@@ -525,12 +526,23 @@ def run_trainer_child(plan, root, key):
     import sleap_nn.training.model_trainer as mt
 
     quiet_lightning()
+    import random as _random
+
+    import numpy as _np
+    import torch as _torch
+
+    # the process RNGs are part of the simulated world: a configuration that leaves them unseeded (seed: null) still replays
+    _torch.manual_seed(plan["seed"] % (2**31))
+    _np.random.seed(plan["seed"] % (2**31))
+    _random.seed(plan["seed"])
     out_dir = os.path.join(root, "out")
     chunks_dir = os.path.join(root, "chunks") if plan["explicit_chunks"] else None
     # output roots: the checkpoint dir, the chunk dir and the working directory (the low-memory fallback writes
     # ./train_chunks there); the harness's own scratch (tmp/, the user's YAML) is kept outside them
     work_dir = os.path.join(root, "cwd")
     os.makedirs(work_dir, exist_ok=True)
+    if plan.get("ckpt_path_none"):
+        out_dir = work_dir  # save_ckpt_path left at its default: everything lands in the working directory
     roots = [out_dir, work_dir] + ([chunks_dir] if chunks_dir else [])
     tmpdir = os.path.join(root, "tmp") if plan["tmp_same_fs"] else "/tmp"
     os.makedirs(tmpdir, exist_ok=True)
